@@ -385,12 +385,13 @@ type Report struct {
 }
 
 type FloorResult struct {
-	Rule  string `json:"rule"`
-	What  string `json:"what"`
-	Min   int    `json:"min"`
-	Got   int    `json:"got"`
-	OK    bool   `json:"ok"`
-	Where string `json:"config,omitempty"`
+	Rule      string `json:"rule"`
+	What      string `json:"what"`
+	Min       int    `json:"min"`
+	Confirmed int    `json:"confirmed_by_hand"`
+	Got       int    `json:"got"`
+	OK        bool   `json:"ok"`
+	Where     string `json:"config,omitempty"`
 }
 
 func NewReport(prop string) *Report {
@@ -451,10 +452,29 @@ func (r *Report) MissingAnchor(rule, name, what string) {
 // Floor records an instance floor; a rule that matches fewer instances than
 // were confirmed by hand fails the check (a rule matching nothing passes
 // vacuously forever).
-func (r *Report) Floor(rule, what string, got, min int) {
+// Floor guards against a rule that stops matching and then passes vacuously.
+// `confirmed` is the number of instances counted by hand on the reviewed tree;
+// the check fails when fewer than floorOf(confirmed) are matched. The
+// threshold is deliberately below the confirmed count: extracting a helper or
+// merging two call sites into one is behaviour-preserving and lowers the count
+// (five such alarms were raised by the negative corpus before this), while a
+// rule that lost its anchor matches none or almost none.
+func floorOf(confirmed int) int {
+	if confirmed <= 2 {
+		return confirmed
+	}
+	m := (confirmed*6 + 9) / 10 // 60 %, rounded up
+	if m < 2 {
+		m = 2
+	}
+	return m
+}
+
+func (r *Report) Floor(rule, what string, got, confirmed int) {
 	if r.curCfg == "control" {
 		return
 	}
+	min := floorOf(confirmed)
 	for i := range r.Floors {
 		f := &r.Floors[i]
 		if f.Rule == rule && f.What == what {
@@ -464,7 +484,7 @@ func (r *Report) Floor(rule, what string, got, min int) {
 			return
 		}
 	}
-	r.Floors = append(r.Floors, FloorResult{Rule: rule, What: what, Min: min, Got: got, OK: got >= min, Where: r.curCfg})
+	r.Floors = append(r.Floors, FloorResult{Rule: rule, What: what, Min: min, Confirmed: confirmed, Got: got, OK: got >= min, Where: r.curCfg})
 }
 
 func (r *Report) Count(rule string) int {
